@@ -144,6 +144,7 @@ func (d *Driver) Take() []*common.MessagePublication {
 
 // Close ends every goroutine of this execution.
 func (d *Driver) Close() {
+	d.Sim.ReleaseAll()
 	d.cancel()
 	for i := 0; i < 50; i++ {
 		d.Quiesce()
